@@ -16,6 +16,7 @@ TRUSTED = [
     "modelled, not verified: serde/serde_json parsing, formatting and derive semantics (Json/*.v, Model/Wire.v), tied by the differential run only",
 ]
 ASSUMPTIONS = [
+    "serde's derived visitors also accept the SEQUENCE form of a struct (e.g. [\"2.0\",1,\"m\",null] as a Request); Model/Wire.v models the map form only: the server applies these readers only to texts starting with '{' (single messages by the sniffer, batch entries since the C02 repair) and the generators never feed arrays to the req/notif/inv/sub readers",
     "Option<RawValue> members (params, data) cannot carry the text `null` (it denotes absence); round-trip is stated on the parser's image",
     "floats are carried as lexemes, never interpreted; out-of-range float literals (1e999) are outside the generators",
 ]
@@ -234,6 +235,36 @@ def run(ctx):
         ctx.evaluations += 1
         if "eq=false" in a or "same_bytes=false" in a or a.startswith(("PANIC", "CRASH", "?")):
             ctx.fail("oracle", "errobj-constructed-roundtrip", {"kind": "mkerr", "text_hex": d.hex(), "data": d.decode()}, a)
+    # (1c) values built through the public API: serialise, parse back, compare, re-serialise -- the round-trip clause of the
+    #      property stated on the implementation alone, over strings needing every kind of escape
+    STR = ["", "a", "a\"b", "back\\slash", "line\nfeed", "tab\t", "nul\u0000", "\u001f", "\u007f", "é", "€", "😀", "\u2028", "/", " ",
+           "]},{[", "null", "2.0", "0", "-1", "18446744073709551616", "\b\f\r", "'", "\ud7ff", "\ufffd"]
+    NUM = [0, 1, 2**31, 2**53, 2**63 - 1, 2**63, 2**64 - 1]
+    PAY = [b"null", b"1", b'"x"', b"[]", b"{}", b'[1,"a",{"b":[null]}]', b"-0.5", b'"\u00e9"', b"true", b'{"a":{"a":{"a":1}}}']
+    idspecs = ["null"] + ["n%d" % n for n in NUM] + ["s" + hx(x.encode()).replace("-", "") for x in STR]
+    subspecs = [x for x in idspecs if x != "null"]
+    rt = []
+    for i in idspecs:
+        rt.append(("id", [i]))
+    for i in subspecs:
+        rt.append(("subid", [i]))
+    rngl = ctx.rng
+    for i in idspecs:
+        rt.append(("req", [i, hx(rngl.choice(STR).encode()) or "-", rngl.choice([hx(p_) for p_ in PAY if p_ != b"null"] + ["-"])]))
+        rt.append(("resp", [i, "r", hx(rngl.choice(PAY))]))
+        rt.append(("resp", [i, "e", str(rngl.choice([0, -1, 1, -32700, -32009, 2**31 - 1, -2**31])), hx(rngl.choice(STR).encode()) or "-",
+                            rngl.choice([hx(p_) for p_ in PAY] + ["-"])]))
+    for me in STR:
+        rt.append(("notif", [hx(me.encode()) or "-", rngl.choice([hx(p_) for p_ in PAY if p_ != b"null"] + ["-"])]))
+    for i in subspecs:
+        rt.append(("subn", [i, hx(rngl.choice(STR).encode()) or "-", hx(rngl.choice(PAY))]))
+        rt.append(("sube", [i, hx(rngl.choice(STR).encode()) or "-", hx(rngl.choice(PAY))]))
+    rr = vlib.run_lines([impl], ["rt %s %s" % (hx(w.encode()), " ".join(a)) for w, a in rt])
+    for (w, a), o in zip(rt, rr):
+        ctx.evaluations += 1
+        ctx.count("api-roundtrip:" + w)
+        if not o.startswith("eq=true same=true"):
+            ctx.fail("oracle", "api-roundtrip:" + w, {"kind": "rt", "what": w, "args": a}, o[:300])
     # (2) text cases
     cases = gen_cases(ctx)
     lines = ["%s %s" % (k, hx(t)) for k, t, _ in cases]
